@@ -651,6 +651,9 @@ func sweepFuncs(c *checkCtx, refs []pkgRef, writeBaseline bool, kinds map[string
 			c.specs[pr.Path] = specs
 		}
 		for _, f := range prog.FuncsOfPackage(pr.Path) {
+			if of := os.Getenv("GOVC_ONLYFUNC"); of != "" && !strings.HasPrefix(FuncName(f), of) {
+				continue
+			}
 			wg.Add(1)
 			go func(f *ssa.Function) {
 				defer wg.Done()
